@@ -160,6 +160,20 @@ func (t *tracer) node(pkg string, n ast.Node, pre string) {
 				}
 				return false
 			}
+		case *ast.ForStmt:
+			t.node(pkg, e.Init, pre)
+			t.emit(pre + "loop {")
+			t.node(pkg, e.Cond, pre)
+			t.node(pkg, e.Body, pre)
+			t.node(pkg, e.Post, pre)
+			t.emit(pre + "}")
+			return false
+		case *ast.RangeStmt:
+			t.node(pkg, e.X, pre)
+			t.emit(pre + "loop {")
+			t.node(pkg, e.Body, pre)
+			t.emit(pre + "}")
+			return false
 		case *ast.ReturnStmt:
 			if len(e.Results) == 1 && src(e.Results[0]) == "true" {
 				t.emit(pre + "return true")
@@ -323,7 +337,7 @@ func (t *tracer) call(pkg string, e *ast.CallExpr, pre string) {
 	}
 }
 
-var keepAlways = map[string]bool{"parser.ParseMIMEMessage": true, "parser.ParseMessage": true, "parser.ReadDataCommand": true,
+var keepAlways = map[string]bool{"message.CalculateNewFlags": true, "parser.ParseMIMEMessage": true, "parser.ParseMessage": true, "parser.ReadDataCommand": true,
 	"parser.ValidateMessage": true, "db.DBManager.GetUserDB": true, "db.DBManager.GetRoleMailboxDB": true, "db.DBManager.GetSharedDB": true}
 var noInline = map[string]bool{"db.DBManager.GetUserDB": true, "db.DBManager.GetRoleMailboxDB": true, "db.DBManager.GetSharedDB": true,
 	"db.DBManager.initUserDB": true, "db.DBManager.initSharedDB": true}
@@ -344,6 +358,26 @@ func (t *tracer) inline(pkg, name, pre string) {
 	}
 	if !effects && !keepAlways[key] {
 		t.ev = t.ev[:mark]
+	}
+}
+
+// pruneEmptyLoops drops `loop {` `}` pairs with nothing between them (repeatedly)
+func pruneEmptyLoops(ev []string) []string {
+	for {
+		var out []string
+		changed := false
+		for i := 0; i < len(ev); i++ {
+			if i+1 < len(ev) && strings.HasSuffix(ev[i], "loop {") && strings.HasSuffix(ev[i+1], "}") && !strings.Contains(ev[i+1], "{") {
+				i++
+				changed = true
+				continue
+			}
+			out = append(out, ev[i])
+		}
+		ev = out
+		if !changed {
+			return ev
+		}
 	}
 }
 
@@ -368,6 +402,7 @@ var traceRoots = []traceRoot{
 	{"mailbox.HandleRename", "mailbox", "HandleRename"},
 	{"mailbox.HandleSubscribe", "mailbox", "HandleSubscribe"},
 	{"mailbox.HandleUnsubscribe", "mailbox", "HandleUnsubscribe"},
+	{"message.ApplyFlagChange", "message", "ApplyFlagChange"},
 	{"auth.authenticateUser", "auth", "authenticateUser"},
 	{"sasl.authenticate", "sasl", "Server.authenticate"},
 	{"db.GetUserByUsername", "db", "GetUserByUsername"},
@@ -486,6 +521,7 @@ func emitPlan() string {
 	for _, r := range traceRoots {
 		t := &tracer{stack: map[string]bool{}}
 		t.fn(r.pkg, r.fn, "")
+		t.ev = pruneEmptyLoops(t.ev)
 		fmt.Fprintf(&b, "  (%s, [\n", lb(r.label))
 		for _, e := range t.ev {
 			fmt.Fprintf(&b, "    %s,\n", lb(e))
